@@ -48,6 +48,12 @@ def pyLt (a b : PNum) : Bool :=
     | some p, some q => decide (p < q)
     | _, _ => false
 
+/-- Python `a <= b` on numbers (anything with nan is False) -/
+def pyLe (a b : PNum) : Bool :=
+  match a, b with
+  | .nan, _ | _, .nan => false
+  | x, y => !pyLt y x
+
 def wordsErr (site : String) (ws : List Word) : Err := .runtime site (firstLine ws)
 
 /-- converters.number_from_value_string on one value string (`none`/`auto` handled by the caller for
@@ -86,17 +92,18 @@ def floatFromNumber (ws : List Word) : PVal → R PVal
   | .bool b => .ok (.num (.flt (if b then 1 else 0) 1))
   | _ => .error (wordsErr "float_expected" ws)
 
-/-- _check_value_base._check_value -/
+/-- _check_value_base._check_value: refuses unless `value >= value_min` and `value <= value_max`
+    (so nan is refused whenever a bound is declared) -/
 def checkValue (lo hi : Option PNum) (ws : List Word) (withLine : Bool) (v : PNum) : R Unit :=
   let line := if withLine then firstLine ws else Option.none
   match lo with
-  | some m => if pyLt v m then .error (.runtime "value_min" line) else
+  | some m => if !pyLe m v then .error (.runtime "value_min" line) else
     (match hi with
-     | some M => if pyLt M v then .error (.runtime "value_max" line) else .ok ()
+     | some M => if !pyLe v M then .error (.runtime "value_max" line) else .ok ()
      | Option.none => .ok ())
   | Option.none =>
     (match hi with
-     | some M => if pyLt M v then .error (.runtime "value_max" line) else .ok ()
+     | some M => if !pyLe v M then .error (.runtime "value_max" line) else .ok ()
      | Option.none => .ok ())
 
 /-- numbers_converters_base._check_size -/
